@@ -139,6 +139,11 @@ class Esc:
                 return type_of(e.value)
             if isinstance(e, ast.Attribute):
                 bt = type_of(e.value)
+                if bt is None and isinstance(e.value, (ast.Name, ast.Attribute)):
+                    # attribute read on the class itself (`Model.field` instead of `instance.field`): same descriptor object
+                    rc = P.resolve(m, e.value)
+                    if rc and rc[0] == 'class':
+                        bt = (rc[1], rc[2])
                 if bt and bt in P.classes:
                     fi = self.field_info(bt, e.attr)
                     if fi and fi[2]:
@@ -757,7 +762,7 @@ class Esc:
             if any(isinstance(x, (ast.Await, ast.Yield, ast.YieldFrom)) for x in ast.walk(s)):
                 drop_done()
             assign_types(s)
-            if isinstance(s, ast.Assign) and isinstance(s.value, ast.Subscript):
+            if isinstance(s, (ast.Assign, ast.AnnAssign)) and isinstance(s.value, ast.Subscript):
                 nonnull.add('found:' + ast.unparse(s.value.value) + ':' + ast.unparse(s.value.slice))
             if isinstance(s, ast.Assign) and len(s.targets) == 1 and isinstance(s.targets[0], ast.Name):
                 v_ = s.value
